@@ -297,10 +297,11 @@ def check_case(case: dict) -> Tuple[Optional[str], List[str], dict]:
                     same = True
                 if not same:
                     # a NaN produced *inside* (Decimal('NaN') parsed from the text 'NaN') is unequal to itself: two
-                    # results that print alike and differ only there are the same result
+                    # results that print alike and differ only there are the same result (a set holding one prints
+                    # its members in an order that depends on the NaN object's identity hash, hence the sort)
                     try:
                         ta, tb = repr(ra), repr(rb)
-                        if ta == tb and ("NaN" in ta or "nan" in ta):
+                        if sorted(ta) == sorted(tb) and ("NaN" in ta or "nan" in ta):
                             same = True
                     except Exception:  # noqa
                         pass
